@@ -26,6 +26,7 @@ type Fake struct {
 	Transferred int  // bytes that actually went through
 	rPos        int  // next byte of the inbound stream
 	Sink        []byte
+	Moved       map[string]int // bytes transferred per calling (managed) goroutine
 }
 
 type fakeAddr struct{}
@@ -33,8 +34,10 @@ type fakeAddr struct{}
 func (fakeAddr) Network() string { return "fake" }
 func (fakeAddr) String() string  { return "fake" }
 
-func (f *Fake) call(isRead bool, b []byte) (int, error) {
+func (f *Fake) call(isRead bool, b []byte, stream bool) (int, error) {
 	want := len(b)
+	done := 0
+	who := cosched.Name()
 	for {
 		cosched.Yield("fake:call")
 		f.mu.Lock()
@@ -44,25 +47,33 @@ func (f *Fake) call(isRead bool, b []byte) (int, error) {
 		}
 		if old {
 			f.mu.Unlock()
-			return 0, os.ErrDeadlineExceeded
+			return done, os.ErrDeadlineExceeded
 		}
 		if *avail > 0 {
 			k := *avail
-			if want < k {
-				k = want
+			if want-done < k {
+				k = want - done
 			}
 			*avail -= k
 			f.Transferred += k
+			if f.Moved == nil {
+				f.Moved = map[string]int{}
+			}
+			f.Moved[who] += k
 			if isRead {
 				for i := 0; i < k; i++ {
 					b[i] = byte(f.rPos*7 + 3)
 					f.rPos++
 				}
 			} else {
-				f.Sink = append(f.Sink, b[:k]...)
+				f.Sink = append(f.Sink, b[done:done+k]...)
 			}
-			f.mu.Unlock()
-			return k, nil
+			done += k
+			// a read or a packet write returns what it got; a stream write returns once everything is written
+			if !stream || done == want {
+				f.mu.Unlock()
+				return done, nil
+			}
 		}
 		f.mu.Unlock()
 		if !cosched.Managed() {
@@ -71,13 +82,13 @@ func (f *Fake) call(isRead bool, b []byte) (int, error) {
 	}
 }
 
-func (f *Fake) Read(b []byte) (int, error)  { return f.call(true, b) }
-func (f *Fake) Write(b []byte) (int, error) { return f.call(false, b) }
+func (f *Fake) Read(b []byte) (int, error)  { return f.call(true, b, false) }
+func (f *Fake) Write(b []byte) (int, error) { return f.call(false, b, true) }
 func (f *Fake) ReadFrom(b []byte) (int, net.Addr, error) {
-	n, err := f.call(true, b)
+	n, err := f.call(true, b, false)
 	return n, fakeAddr{}, err
 }
-func (f *Fake) WriteTo(b []byte, _ net.Addr) (int, error) { return f.call(false, b) }
+func (f *Fake) WriteTo(b []byte, _ net.Addr) (int, error) { return f.call(false, b, false) }
 func (f *Fake) Close() error                              { return nil }
 func (f *Fake) LocalAddr() net.Addr                       { return fakeAddr{} }
 func (f *Fake) RemoteAddr() net.Addr                      { return fakeAddr{} }
@@ -96,149 +107,206 @@ type Wrapped struct {
 	Write func(ctx context.Context, b []byte) (int, error)
 }
 
-type runner struct {
-	f        *Fake
-	w        Wrapped
-	isRead   bool
-	cancel   context.CancelFunc
-	ctx      context.Context
-	main     string
-	n        int
-	err      error
-	finished bool
-	opN      int
-	// judgement bookkeeping
+// opRec is one context-aware operation in progress.
+type opRec struct {
+	isRead    bool
+	cancel    context.CancelFunc
+	ctx       context.Context
+	main      string
+	watcher   string
+	n         int
+	err       error
+	finished  bool
+	judged    bool
 	cancelled bool
 	before    int
 	buf       []byte
-	rGot      int // bytes reads have reported so far
-	wSent     int // bytes writes have reported so far
-	judged    bool
+	granted   bool // (queued operation) has been scheduled once: it sits in the wrapper's mutex
 }
 
-func (r *runner) begin(isRead bool, want int, cancelledBefore bool) {
-	cosched.Reset()
-	r.isRead, r.finished, r.cancelled = isRead, false, cancelledBefore
-	r.ctx, r.cancel = context.WithCancel(context.Background())
+type runner struct {
+	f     *Fake
+	w     Wrapped
+	cur   *opRec
+	q     *opRec // a second operation of the same direction, queued behind cur on the wrapper's mutex
+	rGot  int    // bytes reads have reported so far
+	wSent int    // bytes writes have handed to operations so far
+	known map[string]bool
+}
+
+func (r *runner) spawn(isRead bool, want int, cancelledBefore bool, site string) *opRec {
+	op := &opRec{isRead: isRead, cancelled: cancelledBefore, before: r.f.Transferred}
+	op.ctx, op.cancel = context.WithCancel(context.Background())
 	if cancelledBefore {
-		r.cancel()
+		op.cancel()
 	}
-	r.before = r.f.Transferred
-	r.opN++
-	r.judged = false
 	buf := make([]byte, want)
 	if !isRead {
 		for i := range buf {
 			buf[i] = byte((r.wSent+i)*5 + 1)
 		}
 	}
-	r.buf = buf
-	r.main = cosched.Go("m", func() {
+	op.buf = buf
+	op.main = cosched.Go(site, func() {
 		if isRead {
-			r.n, r.err = r.w.Read(r.ctx, buf)
+			op.n, op.err = r.w.Read(op.ctx, buf)
 		} else {
-			r.n, r.err = r.w.Write(r.ctx, buf)
+			op.n, op.err = r.w.Write(op.ctx, buf)
 		}
-		r.finished = true
+		op.finished = true
 	})
+	r.known[op.main] = true
 	cosched.Quiesce(2 * time.Second)
+	return op
 }
 
-func (r *runner) watcherName() string {
+func (r *runner) begin(isRead bool, want int, cancelledBefore bool) {
+	cosched.Reset()
+	r.f.mu.Lock()
+	r.f.Moved = map[string]int{} // goroutine names start over
+	r.f.mu.Unlock()
+	r.known = map[string]bool{}
+	r.q = nil
+	r.cur = r.spawn(isRead, want, cancelledBefore, "m")
+}
+
+// adopt gives a goroutine that appeared while op's caller ran to op as its watcher.
+func (r *runner) adopt(op *opRec) {
+	if op.watcher != "" {
+		return
+	}
 	for _, p := range cosched.Positions() {
-		if p.Name != r.main {
-			return p.Name
+		if !r.known[p.Name] {
+			r.known[p.Name] = true
+			op.watcher = p.Name
+			return
 		}
 	}
-	return ""
+}
+
+func pcOf(state string) string {
+	switch {
+	case state == "at start":
+		return "start"
+	case state == "at fake:call":
+		return "inCall"
+	case strings.Contains(state, ":wait#"):
+		return "atWait"
+	case state == "parked semacquire" || state == "parked sync.WaitGroup.Wait":
+		return "parkedWait"
+	case state == "parked sync.Mutex.Lock":
+		return "lockWait"
+	case strings.Contains(state, ":select#"):
+		return "atSelect"
+	case state == "parked select":
+		return "parkedSelect"
+	case strings.Contains(state, ":recv#"):
+		return "atRecv"
+	case state == "parked chan receive":
+		return "parkedRecv"
+	case state == "done":
+		return "finished"
+	}
+	return "?" + strings.ReplaceAll(state, " ", "_")
+}
+
+func errKind(err error) string {
+	switch {
+	case err == nil:
+		return "nil"
+	case errors.Is(err, context.Canceled) || errors.Is(err, context.DeadlineExceeded):
+		return "ctx"
+	case errors.Is(err, os.ErrDeadlineExceeded):
+		return "timeout"
+	}
+	return "other"
 }
 
 func (r *runner) line() string {
-	m, w := "?", "none"
+	op := r.cur
+	m, w, q := "?", "none", "-"
 	for _, p := range cosched.Positions() {
-		var pc string
+		pc := pcOf(p.State)
 		switch {
-		case p.State == "at start":
-			pc = "start"
-		case p.State == "at fake:call":
-			pc = "inCall"
-		case strings.Contains(p.State, ":wait#"):
-			pc = "atWait"
-		case p.State == "parked semacquire" || p.State == "parked sync.WaitGroup.Wait":
-			pc = "parkedWait"
-		case strings.Contains(p.State, ":select#"):
-			pc = "atSelect"
-		case p.State == "parked select":
-			pc = "parkedSelect"
-		case strings.Contains(p.State, ":recv#"):
-			pc = "atRecv"
-		case p.State == "parked chan receive":
-			pc = "parkedRecv"
-		case p.State == "done":
-			pc = "finished"
-		default:
-			pc = "?" + strings.ReplaceAll(p.State, " ", "_")
-		}
-		if p.Name == r.main {
+		case p.Name == op.main:
 			m = pc
-		} else {
+		case p.Name == op.watcher:
 			if pc == "finished" {
 				pc = "exited"
 			}
 			w = pc
+		case r.q != nil && p.Name == r.q.main:
+			q = pc
+			// blocked in the wrapper's mutex: whichever way the runtime parks it
+			if r.q.granted && pc == "parkedWait" {
+				q = "lockWait"
+			}
 		}
 	}
 	r.f.mu.Lock()
 	old, avail := r.f.rOld, r.f.rAvail
-	if !r.isRead {
+	if !op.isRead {
 		old, avail = r.f.wOld, r.f.wAvail
 	}
 	r.f.mu.Unlock()
 	res := "-"
-	if r.finished {
-		e := "nil"
-		switch {
-		case r.err == nil:
-		case errors.Is(r.err, context.Canceled) || errors.Is(r.err, context.DeadlineExceeded):
-			e = "ctx"
-		case errors.Is(r.err, os.ErrDeadlineExceeded):
-			e = "timeout"
-		default:
-			e = "other"
-		}
-		res = fmt.Sprintf("%d,%s", r.n, e)
+	if op.finished {
+		res = fmt.Sprintf("%d,%s", op.n, errKind(op.err))
 	}
 	o := 0
 	if old {
 		o = 1
 	}
-	return fmt.Sprintf("M=%s W=%s old=%d avail=%d res=%s", m, w, o, avail, res)
+	return fmt.Sprintf("M=%s W=%s old=%d avail=%d res=%s Q=%s", m, w, o, avail, res, q)
 }
 
-// op executes: begin r|w <want> <cancelled 0|1> | m | w | cancel | data <k>
+// op executes: begin r|w <want> <cancelled 0|1> | begin2 <want> <cancelled 0|1> | m | w | m2 | cancel | data <k> | promote
 func (r *runner) op(f []string) string {
 	switch f[0] {
 	case "begin":
 		r.begin(f[1] == "r", vh.Atoi(f[2]), f[3] == "1")
 		return r.line()
+	case "begin2":
+		if r.cur != nil && r.q == nil && r.cur.isRead {
+			r.q = r.spawn(r.cur.isRead, vh.Atoi(f[1]), f[2] == "1", "m2")
+		}
 	case "m":
-		cosched.Step(r.main, 2*time.Second)
+		r.cur.granted = true
+		cosched.Step(r.cur.main, 2*time.Second)
+		r.adopt(r.cur)
+	case "m2":
+		// only once the first operation is inside the wrapper (it holds the mutex from its first step on)
+		if r.q != nil && r.cur.granted {
+			r.q.granted = true
+			cosched.Step(r.q.main, 2*time.Second)
+			r.adopt(r.q)
+		}
 	case "w", "wc":
-		if n := r.watcherName(); n != "" {
-			cosched.Step(n, 2*time.Second)
+		if r.cur.watcher != "" {
+			cosched.Step(r.cur.watcher, 2*time.Second)
 		}
 	case "cancel":
-		r.cancel()
-		r.cancelled = true
+		r.cur.cancel()
+		r.cur.cancelled = true
 		cosched.Quiesce(2 * time.Second)
 	case "data":
 		r.f.mu.Lock()
-		if r.isRead {
+		if r.cur.isRead {
 			r.f.rAvail += vh.Atoi(f[1])
 		} else {
 			r.f.wAvail += vh.Atoi(f[1])
 		}
 		r.f.mu.Unlock()
+	case "promote":
+		// the queued operation takes over (the first one has returned and released the mutex)
+		if r.q != nil {
+			r.cur, r.q = r.q, nil
+			r.adopt(r.cur)
+		}
+	}
+	if r.q != nil {
+		// a queued caller that got past the mutex spawns its watcher
+		r.adopt(r.q)
 	}
 	return r.line()
 }
@@ -246,8 +314,8 @@ func (r *runner) op(f []string) string {
 // fin reports a completed operation for the oracle: what was reported, what really moved, whether
 // the context had fired, whether the wrapped connection still carries a past deadline, and whether
 // the bytes are the next ones of the stream.
-func (r *runner) fin() string {
-	r.judged = true
+func (r *runner) fin(op *opRec) string {
+	op.judged = true
 	r.f.mu.Lock()
 	defer r.f.mu.Unlock()
 	old := 0
@@ -255,18 +323,18 @@ func (r *runner) fin() string {
 		old = 1
 	}
 	order := 1
-	if r.isRead {
-		for i := 0; i < r.n && i < len(r.buf); i++ {
-			if r.buf[i] != byte((r.rGot+i)*7+3) {
+	if op.isRead {
+		for i := 0; i < op.n && i < len(op.buf); i++ {
+			if op.buf[i] != byte((r.rGot+i)*7+3) {
 				order = 0
 			}
 		}
-		r.rGot += r.n
+		r.rGot += op.n
 		if r.rGot != r.f.rPos {
 			order = 0
 		}
 	} else {
-		r.wSent += r.n
+		r.wSent += op.n
 		if r.wSent != len(r.f.Sink) {
 			order = 0
 		}
@@ -276,30 +344,24 @@ func (r *runner) fin() string {
 			}
 		}
 	}
-	e := "nil"
-	switch {
-	case r.err == nil:
-	case errors.Is(r.err, context.Canceled) || errors.Is(r.err, context.DeadlineExceeded):
-		e = "ctx"
-	case errors.Is(r.err, os.ErrDeadlineExceeded):
-		e = "timeout"
-	default:
-		e = "other"
-	}
 	c := 0
-	if r.cancelled {
+	if op.cancelled {
 		c = 1
 	}
-	return fmt.Sprintf("fin # n=%d err=%s moved=%d cancelled=%d old=%d order=%d", r.n, e, r.f.Transferred-r.before, c, old, order)
+	return fmt.Sprintf("fin # n=%d err=%s moved=%d cancelled=%d old=%d order=%d want=%d", op.n, errKind(op.err), r.f.Moved[op.main], c, old, order, len(op.buf))
 }
 
 // Run executes one case. ops == nil: random.
 func Run(o *vh.Out, id, kind string, mk func(inner *Fake) Wrapped, ops []string, rg *vh.Rng) {
 	o.Case(id, kind)
 	f := &Fake{}
-	r := &runner{f: f, w: mk(f)}
-	emit := func(op string) {
+	r := &runner{f: f, w: mk(f), known: map[string]bool{}}
+	var emit func(op string)
+	emit = func(op string) {
 		fs := vh.Fields(op)
+		if r.cur == nil && fs[0] != "begin" {
+			return
+		}
 		// the watcher's select may have both cases ready: report which one Go took
 		if fs[0] == "w" {
 			f.mu.Lock()
@@ -316,13 +378,20 @@ func Run(o *vh.Out, id, kind string, mk func(inner *Fake) Wrapped, ops []string,
 		} else {
 			o.Op(op, r.op(fs), "")
 		}
-		if r.finished && !r.judged && r.opN > 0 {
-			o.Op(r.fin(), "fin", "")
+		// a queued operation that returns before the first one got past the mutex too early; its result is judged all the same
+		if r.q != nil && r.q.finished && !r.q.judged {
+			o.Op(r.fin(r.q), "fin", "")
+		}
+		if r.cur.finished && !r.cur.judged {
+			o.Op(r.fin(r.cur), "fin", "")
+			if r.q != nil && fs[0] != "promote" {
+				emit("promote")
+			}
 		}
 	}
 	if ops != nil {
 		for _, op := range ops {
-			if strings.HasPrefix(op, "end") || strings.HasPrefix(op, "fin") {
+			if strings.HasPrefix(op, "end") || strings.HasPrefix(op, "fin") || strings.HasPrefix(op, "promote") {
 				continue
 			}
 			emit(op)
@@ -335,16 +404,22 @@ func Run(o *vh.Out, id, kind string, mk func(inner *Fake) Wrapped, ops []string,
 				rw = "w"
 			}
 			emit(fmt.Sprintf("begin %s %d %d", rw, rg.Pick(1, 4, 8), rg.Pick(0, 0, 0, 1)))
-			for i := 0; i < 40 && !r.finished; i++ {
+			for i := 0; i < 60 && !(r.cur.finished && r.q == nil); i++ {
 				var choices []string
 				for _, p := range cosched.AtYield() {
-					if p == r.main {
+					switch {
+					case p == r.cur.main:
 						choices = append(choices, "m", "m")
-					} else {
+					case p == r.cur.watcher:
 						choices = append(choices, "w", "w")
+					case r.q != nil && p == r.q.main && r.cur.granted:
+						choices = append(choices, "m2")
 					}
 				}
-				if !r.cancelled && rg.Chance(30) {
+				if r.q == nil && r.cur.isRead && !r.cur.finished && rg.Chance(6) {
+					choices = append(choices, fmt.Sprintf("begin2 %d %d", rg.Pick(1, 4, 8), rg.Pick(0, 0, 0, 1)))
+				}
+				if !r.cur.cancelled && rg.Chance(30) {
 					choices = append(choices, "cancel")
 				}
 				if rg.Chance(25) {
@@ -352,7 +427,7 @@ func Run(o *vh.Out, id, kind string, mk func(inner *Fake) Wrapped, ops []string,
 				}
 				if len(choices) == 0 {
 					// everything is blocked: an external event must happen
-					if r.cancelled {
+					if r.cur.cancelled {
 						choices = []string{fmt.Sprintf("data %d", rg.Pick(1, 5))}
 					} else {
 						choices = []string{"cancel", fmt.Sprintf("data %d", rg.Pick(1, 5))}
@@ -360,34 +435,47 @@ func Run(o *vh.Out, id, kind string, mk func(inner *Fake) Wrapped, ops []string,
 				}
 				emit(choices[rg.Intn(len(choices))])
 			}
-			if !r.finished {
+			if !r.cur.finished || r.q != nil {
 				break
 			}
 		}
 	}
 	// promptness: once the context has fired, running everything that can run must finish the operation
 	stuck := 0
-	if r.opN > 0 && !r.finished && r.cancelled {
-		for i := 0; i < 30 && !r.finished; i++ {
+	if r.cur != nil && !r.cur.finished && r.cur.cancelled {
+		draining := r.cur
+		for i := 0; i < 30 && !draining.finished && r.cur == draining; i++ {
+			// the watcher first (it parks after at most two grants), then the caller
 			ys := cosched.AtYield()
-			if len(ys) == 0 {
-				break
+			has := func(name string) bool {
+				for _, y := range ys {
+					if y == name && name != "" {
+						return true
+					}
+				}
+				return false
 			}
-			if ys[0] == r.main {
-				emit("m")
-			} else {
+			switch {
+			case has(r.cur.watcher):
 				emit("w")
+			case has(r.cur.main):
+				emit("m")
+			default:
+				i = 30
 			}
 		}
-		if !r.finished {
+		if !draining.finished {
 			stuck = 1
 		}
 	}
 	o.Op(fmt.Sprintf("end # stuck=%d", stuck), "end", "")
 	// release whatever is still blocked
 	cosched.Disable()
-	if r.cancel != nil {
-		r.cancel()
+	if r.cur != nil {
+		r.cur.cancel()
+	}
+	if r.q != nil {
+		r.q.cancel()
 	}
 	f.mu.Lock()
 	f.rAvail += 1000
